@@ -280,7 +280,9 @@ fn v1_body(len: usize, offset: usize, non_ascii: bool) {
     }
     if non_ascii {
         let p: usize = kani::any();
-        kani::assume(p + 3 <= len);
+        kani::assume(p <= len - 3);
+        // the scan must start on a character boundary (documented precondition of a `&str` offset)
+        kani::assume(p >= offset || p + 3 <= offset);
         v[p] = 0xE3;
         v[p + 1] = 0x80;
         v[p + 2] = 0x80;
